@@ -187,6 +187,22 @@ def check_top_setter(ctx, g, m, nt, det):
         want_top = nt if nt is not None else (m.triples[0][0] if m.triples else None)
         if g2.top != want_top:
             ctx.fail('top-setter:value', detail=dict(det, new_top=nt, got=g2.top))
+    else:
+        # refused means refused: the graph is what it was (top, re-entrancy counts, and what a later
+        # difference makes of the top)
+        if g2.top != g.top or g2.reentrancies() != g.reentrancies() or g2.triples != g.triples:
+            ctx.fail('top-setter:refused-but-changed', detail=dict(det, new_top=nt, top_before=g.top, top_after=g2.top))
+        elif g.triples:
+            from penman.graph import Graph as _G
+            first = _G([g.triples[0]])
+            try:
+                a_, b_ = (g2 - first), (g - first)
+                same = (a_.top == b_.top)
+            except Exception:
+                same = True
+            if not same:
+                ctx.fail('top-setter:refused-but-changed', mech='later-difference',
+                         detail=dict(det, new_top=nt, got=a_.top, want=b_.top))
 
 
 def snap(g):
